@@ -63,7 +63,7 @@ var propsMeta = map[string]PropMeta{
 		Real: mediaReal, Stub: commonStub,
 	},
 	"C07": {
-		Rule: "streams scenario: 2-6 simulated clients in one or two groups publish (offer with an SDP made by a real pion PeerConnection; tracks delivered to the server's OnTrack by the simulator, possibly in stages), request / requestStream with arbitrary request maps, answer or ignore the server's offers, close, replace, abort, renegotiate, leave, are kicked, lose the right to present, have their connection cut or their ICE transport fail, in any interleaving; oracle: reference model of who must hold which downstream with which kinds, judged at quiescent points and by interval reasoning over server-side membership windows. Non-trivial: at least one stream offered to a subscriber and one teardown." + schedRule,
+		Rule: "whip-stream scenario: web subscribers that request everything, a WHIP session whose tracks arrive (each arrival schedules the delayed announcement) and which is deleted by its publisher 0-400 ms later; once activity has stopped no subscriber holds a downstream for a deleted session. streams scenario: 2-6 simulated clients in one or two groups publish (offer with an SDP made by a real pion PeerConnection; tracks delivered to the server's OnTrack by the simulator, possibly in stages), request / requestStream with arbitrary request maps, answer or ignore the server's offers, close, replace, abort, renegotiate, leave, are kicked, lose the right to present, have their connection cut or their ICE transport fail, in any interleaving; oracle: reference model of who must hold which downstream with which kinds, judged at quiescent points and by interval reasoning over server-side membership windows. Non-trivial: at least one stream offered to a subscriber and one teardown." + schedRule,
 		Real: append([]string{"rtpconn: pushConn/pushConnNow, pushDownConn, requestedTracks, addDownConn/delDownConn, replaceTracks, negotiate, delUpConn, handleAction"}, confReal...), Stub: confStub,
 	},
 	"C08": {
